@@ -176,6 +176,7 @@ def explore(fn, max_paths=20000, timeout_ms=10000, loop_bound=100000, on_path=No
                 r = ("raise", ex)
         finally:
             V.CUR = None
+        ctx.solver = None  # the path condition (ctx.pc) is what later stages use; thousands of live solvers exhaust memory
         item = (ctx, r[0], r[1])
         if on_path is not None:
             on_path(item)
